@@ -6,8 +6,8 @@
    that byte's value (what char_at and inspect show). `gseg` is uniseg's grapheme segmentation,
    an oracle about which only two laws are assumed: the clusters are non-empty and concatenate
    to the string. Every Go string has at most 2^63-1 bytes (`byte_count s <= max64`). *)
-From Elk Require Import Base.GoSem Base.Utf8 Model.C20_String
-  Proofs.Utf8_Decode Proofs.Utf8_Encode Proofs.Utf8_Append Proofs.C20_String.
+From Elk Require Import Base.GoSem Base.Utf8 Model.C20_String Model.C20_Iter
+  Proofs.Utf8_Decode Proofs.Utf8_Encode Proofs.Utf8_Append Proofs.C20_String Proofs.C20_Iter.
 Open Scope Z_scope.
 
 (* ---- shared UTF-8 base (Base/Utf8.v) ---- *)
@@ -156,6 +156,92 @@ Theorem C20_case_mapping : forall (f : Z -> Z) s,
   valid_string (map_runes f s) = true.
 Proof. exact case_all. Qed.
 Print Assumptions C20_case_mapping.
+
+(* ---- iterator protocol (Model/C20_Iter.v): histories of operations on iterator OBJECTS ----
+
+   `gstep` is uniseg.FirstGraphemeClusterInString (rest, state) -> (cluster, rest', state'), an
+   oracle about which one law is assumed (`gstep_law`): on a non-empty rest the cluster is a
+   non-empty prefix and rest' is what follows it. The clusters of a string, `gseg_of gstep s`,
+   are DEFINED as GraphemeClusterCount / GraphemeAtInt / a fresh iterator compute them: steps
+   from (s, -1). A grapheme iterator's state is the Go struct's (Rest, State). *)
+
+(* the clusters defined from the step function satisfy the two laws assumed of `gseg` above, so
+   C20_counts and C20_index hold with gseg := gseg_of gstep *)
+Theorem C20_gseg_of_laws : forall gstep, gstep_law gstep ->
+  (forall t, concat (gseg_of gstep t) = t) /\ (forall t c, In c (gseg_of gstep t) -> c <> []).
+Proof. exact gseg_of_laws. Qed.
+Print Assumptions C20_gseg_of_laws.
+
+(* For ANY history h of operations on a pool of iterators over s - create an iterator of any of
+   the three kinds, next, reset, copy, `for` (next until :stop_iteration), in any interleaving
+   and on any iterator of the pool, ill-formed indices included - the iterator objects
+   (ByteOffset / (Rest, State) machines) yield, operation by operation, exactly what positions
+   in the element lists yield: next = the element at the current position (then position + 1)
+   or :stop_iteration at the end; reset = back to position 0; copy = same position, independent
+   afterwards. The element lists are the characters, the bytes and the grapheme clusters of s. *)
+Theorem C20_iter_history : forall gstep, gstep_law gstep ->
+  forall s (h : list (pop ikind)), iter_run gstep s h = iter_spec gstep s h.
+Proof. exact iter_history. Qed.
+Print Assumptions C20_iter_history.
+
+(* the element lists have length / byte_count / grapheme_count elements, and they are the lists
+   C20_index indexes (chars s, s, gseg_of gstep s) *)
+Theorem C20_iter_elems : forall gstep, gstep_law gstep -> forall s,
+  elems gstep s KChar = map EChar (chars s) /\
+  elems gstep s KByte = map EByte s /\
+  elems gstep s KGr = map EStr (gseg_of gstep s) /\
+  Z.of_nat (length (elems gstep s KChar)) = char_count s /\
+  Z.of_nat (length (elems gstep s KByte)) = byte_count s /\
+  Z.of_nat (length (elems gstep s KGr)) = grapheme_count (gseg_of gstep) s.
+Proof. exact iter_elems_all. Qed.
+Print Assumptions C20_iter_elems.
+
+(* after ANY history, if iterator i exists and has kind k, `it.reset` followed by `for x in it`
+   yields the whole element list of kind k - as many elements as the *_count method says - and
+   then stops (S (length s) steps always suffice) *)
+Theorem C20_iter_reiterate : forall gstep, gstep_law gstep ->
+  forall s h i k p, nth_error (spec_state gstep s h) i = Some (k, p) ->
+  iter_run gstep s (h ++ [PReset i; PDrain i]) =
+    iter_run gstep s h ++ [[QUnit]; map QElem (elems gstep s k) ++ [QStop]].
+Proof. exact iter_reiterate. Qed.
+Print Assumptions C20_iter_reiterate.
+
+(* grapheme_at with the clusters defined from the step function (C20_index instantiated) *)
+Theorem C20_iter_grapheme_at : forall gstep, gstep_law gstep ->
+  forall s i, byte_count s <= max64 ->
+  let n := Z.of_nat (length (gseg_of gstep s)) in
+  (- n <= i < n ->
+     exists c, nth_error (gseg_of gstep s) (Z.to_nat (norm_index n i)) = Some c /\
+               grapheme_at (gseg_of gstep) s i = Ok c) /\
+  (~ (- n <= i < n) -> grapheme_at (gseg_of gstep) s i = Err E_INDEX).
+Proof. exact iter_grapheme_at. Qed.
+Print Assumptions C20_iter_grapheme_at.
+
+(* the step law is satisfiable by an oracle with a STATE-DEPENDENT rule (toy GB3: 13,10 is one
+   cluster unless the state is 0), and the machines compute: "\r\na" - next, reset, for, a copy
+   taken mid-way, two iterators interleaved *)
+Example C20_iter_nonvacuous :
+  gstep_law gstep_crlf /\
+  gseg_of gstep_crlf [13; 10; 97] = [[13; 10]; [97]] /\
+  iter_run gstep_crlf [13; 10; 97] [PNew KGr; PNext 0; PReset 0; PDrain 0; PNext 0; PReset 0; PNext 0] =
+    [[QUnit]; [QElem (EStr [13; 10])]; [QUnit]; [QElem (EStr [13; 10]); QElem (EStr [97]); QStop];
+     [QStop]; [QUnit]; [QElem (EStr [13; 10])]] /\
+  iter_run gstep_crlf [195; 169; 255] [PNew KChar; PNew KByte; PNext 0; PNext 1; PCopy 0; PReset 0; PNext 2; PNext 0; PDrain 1; PNext 7] =
+    [[QUnit]; [QUnit]; [QElem (EChar 233)]; [QElem (EByte 195)]; [QUnit]; [QUnit]; [QElem (EChar 255)];
+     [QElem (EChar 233)]; [QElem (EByte 169); QElem (EByte 255); QStop]; [QBad]].
+Proof. split; [exact gstep_crlf_law|]. repeat split; vm_compute; reflexivity. Qed.
+
+(* the initial sentinel matters: a Reset that leaves State = 0 (the zero value of the struct
+   field) instead of -1 makes the re-iteration of "\r\na" split the leading cluster - 3 elements
+   where grapheme_count is 2 - so the faithful model distinguishes the two resets *)
+Example C20_iter_reset_sentinel_matters :
+  iter_run_reset_to (-1) gstep_crlf [13; 10; 97] [PNew KGr; PReset 0; PDrain 0] =
+    iter_spec gstep_crlf [13; 10; 97] [PNew KGr; PReset 0; PDrain 0] /\
+  iter_run_reset_to 0 gstep_crlf [13; 10; 97] [PNew KGr; PReset 0; PDrain 0] =
+    [[QUnit]; [QUnit]; [QElem (EStr [13]); QElem (EStr [10]); QElem (EStr [97]); QStop]] /\
+  iter_spec gstep_crlf [13; 10; 97] [PNew KGr; PReset 0; PDrain 0] =
+    [[QUnit]; [QUnit]; [QElem (EStr [13; 10]); QElem (EStr [97]); QStop]].
+Proof. repeat split; vm_compute; reflexivity. Qed.
 
 (* ---- non-vacuity and witnesses (vm_compute on concrete strings) ---- *)
 
